@@ -122,7 +122,8 @@ def rand_index_set(rng, max_used=4):
     return N, used
 
 
-TINY = [1e-3, -2e-3, 4e-4, 1e-4, -1e-5]
+# (kept well above 1e-5: both compilers drop a net symplectic that np.allclose's default rtol=1e-5 calls the identity)
+TINY = [1e-3, -2e-3, 4e-4, 2e-3]
 
 
 def draw_param(rng, kind):
@@ -156,8 +157,10 @@ def rand_cmd(rng, used, table, dagger_prob=0.25, max_mat=3, small=False):
             params.append(mat_to_json(rand_contraction(rng, nm)))
         elif k == "A":
             g_ = _nprng(rng)
-            A_ = g_.uniform(-0.5, 0.5, size=(nm, nm))
-            params.append(mat_to_json(np.round((A_ + A_.T) / 2, 3)))
+            Q_, _r = np.linalg.qr(g_.normal(size=(nm, nm)))
+            lam_ = g_.uniform(0.2, 0.8, size=nm) * g_.choice([-1.0, 1.0], size=nm)
+            A_ = Q_ @ np.diag(lam_) @ Q_.T  # symmetric, well conditioned (GraphEmbed rejects tiny singular values)
+            params.append(mat_to_json((A_ + A_.T) / 2))
         elif k == "K":
             g_ = _nprng(rng)
             v_ = g_.normal(size=4) + 1j * g_.normal(size=4)
@@ -1001,6 +1004,7 @@ class CompileTimeout(Exception):
     pass
 
 
+HANGS = [0]  # compiles that did not return in this run; after 3 the remaining gaussian_merge work is skipped
 MERGE_TIME_LIMIT = 6  # seconds (2 after the first compile that did not return) for one gaussian_merge compile of a <= 15-command circuit (normally milliseconds)
 
 
@@ -1010,12 +1014,25 @@ def compile_merge_observed(prog, **opts):
     import signal
     import strawberryfields.compilers.gaussian_merge as gm
     inner = []
+    inner_io = []
+    same_count = [0]
     orig = gm.GaussianUnitary
 
     class Recorder(orig):
         def compile(self, seq, registers):
             out = super().compile(seq, registers)
             inner.append([c.op.__class__.__name__ for c in out])
+            inner_io.append(([(c.op.__class__.__name__, [r.ind for r in c.reg]) for c in seq],
+                             [(c.op.__class__.__name__, [r.ind for r in c.reg]) for c in out]))
+            # 200 consecutive identical merges (a circuit of <= 40 commands needs < 40 merges in all): the loop has
+            # reached a fixed point it will never leave -- no need to wait for the alarm
+            if len(inner_io) >= 2 and inner_io[-1] == inner_io[-2]:
+                same_count[0] += 1
+                if same_count[0] >= 200:
+                    raise CompileTimeout()
+            else:
+                same_count[0] = 0
+            del inner_io[:-2]
             return out
 
     def on_alarm(signum, frame):
@@ -1029,6 +1046,7 @@ def compile_merge_observed(prog, **opts):
             return prog.compile(compiler="gaussian_merge", **opts), inner
     except Exception as e:
         e._inner = inner
+        e._inner_io = inner_io[-2:]
         raise
     finally:
         signal.alarm(0)
@@ -1044,12 +1062,20 @@ def check_merge_case(ctx, spec, report=True):
     sig, text, out = None, "", None
     try:
         compiled, _inner = compile_merge_observed(prog, **spec.get("opts", {}))
-    except CompileTimeout:
+    except CompileTimeout as e:
         global MERGE_TIME_LIMIT
         compiled = None
         sig = "gaussian_merge:hang"
         text = "gaussian_merge did not return within %d s (the merge loop does not terminate)" % MERGE_TIME_LIMIT
-        MERGE_TIME_LIMIT = 2
+        io = getattr(e, "_inner_io", [])
+        if len(io) == 2 and io[0] == io[1] and io[1][0] == io[1][1] and all(n_ == "Dgate" for n_, _m in io[1][0]):
+            # the recorded non-termination: a block made only of Dgates is "merged" into the very same Dgates, which
+            # counts as progress, for ever (is_redundant_merge only looks at blocks headed by a GaussianTransform)
+            sig += ":dgate-fixed-point"
+            text += "; the loop keeps re-merging the Dgates %r into themselves" % (io[1][0],)
+        else:
+            MERGE_TIME_LIMIT = 2
+            HANGS[0] += 1
     except CircuitError:
         if all(accepted("gaussian_merge", c[0]) for c in spec["cmds"]):
             sig, text = "gaussian_merge:rejects-accepted-circuit", "CircuitError on a circuit of accepted operations"
@@ -1209,8 +1235,6 @@ def golden_specs(n):
     for i in range(n):
         opq = i % 3 == 1
         sp = rand_conj_circuit(rng, opaque=opq) if i % 4 == 3 else rand_hybrid(rng, "hybrid-multimode", opaque=opq)
-        if i % 9 == 4:
-            sp["opts"] = {"optimize": True}
         out.append(sp)
     return out
 
@@ -1229,9 +1253,12 @@ def golden_sweep(ctx):
     except Exception as e:
         ctx.obligation("golden-pass-set:present", False, repr(e))
         return
-    n = ctx.budget(400, GOLDEN_N)
+    n = ctx.budget(300, GOLDEN_N)
     bad = 0
     for i, sp in enumerate(golden_specs(n)):
+        if HANGS[0] >= 3:
+            ctx.notes.append("golden sweep skipped after %d compiles that did not terminate" % HANGS[0])
+            break
         sig, text, _ = check_merge_case(_Quiet(), sp, report=False)
         ctx.case({"golden": i, "outcome": sig or "ok"}, nontrivial=True, bucket="golden-%s" % ("ok" if sig is None else "known-class"))
         if sig is not None and exp[i] is None:
@@ -1314,7 +1341,7 @@ def search(ctx):
                     small = shrink(spec, pred)
                     iss.data = {"check": "pure", "compiler": compiler, "spec": small}
         # state-level cross-check on the backend when the compiled program is runnable
-        n_state = ctx.budget(40, 250)
+        n_state = ctx.budget(30, 250)
         for _ in range(n_state):
             spec = rand_circuit(rng, table, max_used=rng.choice([2, 3, 4]), max_cmds=6, dagger_prob=0.2)
             res = run_compiler_case(compiler, spec)
@@ -1342,12 +1369,13 @@ def search(ctx):
     for i in range(n_merge):
         opq = i % 4 == 1
         sp = rand_conj_circuit(rng, opaque=opq) if i % 3 == 2 else rand_hybrid(rng, opaque=opq)
-        if i % 7 == 3:
+        if i % 5 == 3 and not any(c[0] in NONGAUSS_ALL for c in sp["cmds"]):
+            # (with non-Gaussian gates the optimiser may legitimately merge two of them, which the stand-ins cannot follow)
             sp["opts"] = {"optimize": True}
         todo.append(("random", sp))
     hangs = 0
     for origin, spec in todo:
-        if hangs >= 3:
+        if hangs >= 3 or HANGS[0] >= 6:
             ctx.notes.append("gaussian_merge search stopped early after 3 compiles that did not terminate")
             break
         before = len(ctx.issues)
@@ -1362,6 +1390,8 @@ def search(ctx):
         if sig == "gaussian_merge:hang":
             hangs += 1
             found[sig] = True
+        if sig == "gaussian_merge:hang:dgate-fixed-point":
+            found.setdefault(sig, True)  # (not shrunk: every shrink step would wait for the time limit)
         if sig and sig not in found:
             found[sig] = True
             small = shrink(spec, lambda s2, sig=sig: check_merge_case(_Quiet(), s2, report=False)[0] == sig)
